@@ -40,14 +40,27 @@ func c11concChild(raw json.RawMessage, scratch string) {
 		cs := c11concCase{Index: idx, Loaders: rng.Pick(2, 4, 8, 16), Keys: rng.Pick(20, 100, 300)}
 		wk.ChildCase(idx, cs)
 		files := make([][]byte, cs.Loaders)
+		bigFiles := int64(0)
 		for k := range files {
 			f := rdbgen.RandFile(rng, rdbgen.FileOpts{MaxKeys: cs.Keys, MaxElems: rng.Pick(3, 12, 40), Streams: true, Metadata: true, MultiDB: true, Expiry: true})
+			if k == 0 && idx%4 == 1 {
+				// one loader meets a hash above the 16 MiB chunk limit: every record the loader cuts it into is a payload of
+				// its own, with its own trailer
+				hv := &rdbgen.Value{Kind: "hash"}
+				for q := 0; q < 70; q++ {
+					val := bytes.Repeat([]byte{byte('a' + q%26)}, 600000)
+					copy(val, fmt.Sprintf("v%d:", q))
+					hv.Hash = append(hv.Hash, [2][]byte{[]byte(fmt.Sprintf("field-%d", q)), val})
+				}
+				f.Items = append(f.Items, rdbgen.Item{Key: &rdbgen.KeySpec{DB: 0, Key: []byte("big-hash"), Val: hv, Enc: "table"}})
+				bigFiles++
+			}
 			files[k], _ = rdbgen.Build(rng, f, 0)
 		}
 		type bad struct{ what, sig string }
 		var mu sync.Mutex
 		var bads []bad
-		var payloads int64
+		var payloads, chunkRecs int64
 		var wg sync.WaitGroup
 		for k := range files {
 			wg.Add(1)
@@ -86,8 +99,10 @@ func c11concChild(raw json.RawMessage, scratch string) {
 					if e.Type == rdb.RdbFlagAUX || len(e.Value) < 10 {
 						continue // lua script bodies are not DUMP payloads
 					}
-					if e.NeedReadLen != 0 && e.RealMemberCount != 0 {
-						continue
+					if string(e.Key) == "big-hash" {
+						mu.Lock()
+						chunkRecs++
+						mu.Unlock()
 					}
 					p := e.Value
 					want := refcrc.CRC64(0, p[:len(p)-8])
@@ -112,6 +127,8 @@ func c11concChild(raw json.RawMessage, scratch string) {
 		r.Case(fmt.Sprintf("concurrent|loaders%d|keys%d", cs.Loaders, cs.Keys))
 		r.Count("concurrent_loader_groups", 1)
 		r.Count("concurrent_payloads_checked", payloads)
+		r.Count("chunk_record_payloads_checked", chunkRecs)
+		r.Count("files_with_a_chunked_hash", bigFiles)
 		r.Max("max_concurrent_loaders", int64(cs.Loaders))
 		seen := map[string]bool{}
 		for _, b := range bads {
